@@ -5,6 +5,7 @@ import (
 	"errors"
 	"fmt"
 	"strings"
+	"sync/atomic"
 	"time"
 
 	smtp "github.com/emersion/go-smtp"
@@ -18,17 +19,19 @@ import (
 // C16 — a message written through the client arrives intact at a go-smtp backend.
 
 type c16Case struct {
-	Body   []byte  `json:"body"`
-	BodyQ  string  `json:"body_q"`
-	Part   string  `json:"part"` // whole | bytes | split | seeded
-	At     int     `json:"at"`
-	Cuts   []int   `json:"cuts"`
-	Reject bool    `json:"reject"`
-	Mode   srvMode `json:"mode"`
-	NRcpt  int     `json:"nrcpt"`
-	WT     bool    `json:"wt"`     // Server.WriteTimeout set (ReadTimeout unset) and "time passes" during the body: any read deadline the server armed is fired
-	Second bool    `json:"second"` // a second message with other recipients follows on the same connection
-	CT     bool    `json:"ct"`     // "time passes" on the client side while the body is being written: any deadline the client left armed on its connection is fired
+	Body    []byte  `json:"body"`
+	BodyQ   string  `json:"body_q"`
+	Part    string  `json:"part"` // whole | bytes | split | seeded
+	At      int     `json:"at"`
+	Cuts    []int   `json:"cuts"`
+	Reject  bool    `json:"reject"`
+	Mode    srvMode `json:"mode"`
+	NRcpt   int     `json:"nrcpt"`
+	WT      bool    `json:"wt"`      // Server.WriteTimeout set (ReadTimeout unset) and "time passes" during the body: any read deadline the server armed is fired
+	Second  bool    `json:"second"`  // a second message with other recipients follows on the same connection
+	Slow    bool    `json:"slow"`    // the server's verdict is slow: while Close waits for it, the deadline armed on the client's connection must be the submission timeout, not the (much shorter) command timeout
+	Reclose bool    `json:"reclose"` // (with Second) the first message's writer is closed once more while the second message's writer is open
+	CT      bool    `json:"ct"`      // "time passes" on the client side while the body is being written: any deadline the client left armed on its connection is fired
 }
 
 func init() {
@@ -64,7 +67,7 @@ func c16Run(ctx *core.Ctx) {
 			}
 			for pi, pt := range parts {
 				c := c16Case{Body: body, BodyQ: fmt.Sprintf("%q", body), Part: pt, Reject: (idx+pi)%2 == 0, Mode: mode, NRcpt: 1 + idx%3,
-					WT: (idx+pi)%5 == 2, Second: (idx+pi)%4 == 1, CT: (idx+pi)%3 == 1}
+					WT: (idx+pi)%5 == 2, Second: (idx+pi)%4 == 1, CT: (idx+pi)%3 == 1, Slow: (idx+pi)%7 == 3, Reclose: (idx+pi)%8 == 1}
 				switch pt {
 				case "split":
 					if len(body) < 2 {
@@ -117,14 +120,20 @@ func c16Exec(ctx *core.Ctx, c c16Case) {
 			nontrivial = true
 		}
 	}
-	ctx.Eval(fmt.Sprintf("%q|%s|%d|%v|%v|%s|%d|%v|%v|%v", c.Body, c.Part, c.At, c.Cuts, c.Reject, c.Mode, c.NRcpt, c.WT, c.Second, c.CT), nontrivial)
+	ctx.Eval(fmt.Sprintf("%q|%s|%d|%v|%v|%s|%d|%v|%v|%v", c.Body, c.Part, c.At, c.Cuts, c.Reject, c.Mode, c.NRcpt, c.WT, c.Second, c.CT)+fmt.Sprint("|", c.Slow, c.Reclose), nontrivial)
 	rig := newRig(c.Mode, func(s *smtp.Server) {
 		if c.WT {
 			s.WriteTimeout = time.Hour // virtual clock: never expires by itself
 		}
 	})
+	gate := rec.NewGate()
+	defer gate.OpenAll()
+	var nData atomic.Int32
 	rig.BE.H.Data = func(sess int, r *rec.Reader, st smtp.StatusCollector) error {
 		r.ReadAll(97)
+		if c.Slow && nData.Add(1) == 1 {
+			gate.Wait("verdict")
+		}
 		if c.Reject {
 			return &smtp.SMTPError{Code: 554, EnhancedCode: smtp.EnhancedCode{5, 6, 0}, Message: "v#m16 rejected"}
 		}
@@ -216,7 +225,30 @@ func c16Exec(ctx *core.Ctx, c c16Case) {
 			return
 		}
 	}
-	closeErr := w.Close()
+	var closeErr error
+	if c.Slow {
+		cl.CommandTimeout, cl.SubmissionTimeout = time.Minute, 100*time.Hour
+		cd := make(chan error, 1)
+		go func() { cd <- w.Close() }()
+		gate.WaitParked("verdict")
+		// the client now waits for the final reply (parked in Read; nothing in flight)
+		if idle, werr := p.SrvEnd.WaitPeerIdle(wire.Watchdog); werr == nil && idle {
+			if t, ok := p.Raw.ReadDeadlineValue(); ok {
+				ctx.Add("client_deadlines_inspected_while_waiting_for_the_verdict", 1)
+				if left := time.Until(t); left < 50*time.Hour {
+					gate.OpenAll()
+					<-cd
+					done()
+					fail("C16:verdict-wait-uses-command-timeout", fmt.Sprintf("while Close waits for the server's verdict the read deadline on the client's connection is %v away (CommandTimeout=1m, SubmissionTimeout=100h): a verdict slower than the command timeout would be reported as an i/o timeout", left.Round(time.Second)))
+					return
+				}
+			}
+		}
+		gate.Open("verdict")
+		closeErr = <-cd
+	} else {
+		closeErr = w.Close()
+	}
 	mark := rig.Log.Len()
 	closeErr2 := w.Close()
 	var wroteAfter []string
@@ -259,7 +291,27 @@ func c16Exec(ctx *core.Ctx, c c16Case) {
 			fail("C16:second-message", "Data for the second message failed: "+err.Error())
 			return
 		}
-		w2.Write([]byte("second message body\r\n"))
+		if c.Reclose {
+			// the first message's writer is closed once more while the second message is being
+			// written: a local error, nothing on the wire, the second message unharmed
+			w2.Write([]byte("second "))
+			m2 := rig.Log.Len()
+			if err := w.Close(); err == nil {
+				done()
+				fail("C16:stale-writer-close", "closing the first message's (already closed) writer while the second message is open returned nil")
+				return
+			}
+			w2.Write([]byte("message body\r\n"))
+			for _, e := range rig.Log.Events()[m2:] {
+				if e.Kind == "c2s" && strings.Contains(e.A, "\r\n.\r\n") {
+					done()
+					fail("C16:stale-writer-close", "closing the first message's writer again ended the second message on the wire")
+					return
+				}
+			}
+		} else {
+			w2.Write([]byte("second message body\r\n"))
+		}
 		closeErr3 = w2.Close()
 	}
 	quitErr := cl.Quit()
